@@ -25,7 +25,8 @@ Record tables := {
   t_ext : list (bytes * lang);
   t_lang_gcc : lang -> option bytes;
   t_lang_clang : lang -> option bytes;
-  t_arch_flag : bytes
+  t_arch_flag : bytes;
+  t_expand_limit : N            (* MAX_INCLUDE_FILE_EXPANSIONS *)
 }.
 
 (* ------------------------------------------------------------------ bytes *)
@@ -214,28 +215,27 @@ Definition has_quote (s : bytes) : bool := existsb (fun c => N.eqb c 34 || N.eqb
 
 Inductive popres :=
 | PopEnd
-| PopFuel
-| PopArg (a : bytes) (rest : list bytes).
+| PopArg (a : bytes) (rest : list bytes) (left : nat).
 
-(* ExpandIncludeFile::next; the stack is kept top-first.  An `@name` that cannot be read, or whose content holds a
-   quote, is returned literally. *)
-Fixpoint pop (fuel : nat) (fs : fsys) (stack : list bytes) : popres :=
-  match fuel with
-  | O => PopFuel
-  | S f =>
-      match stack with
-      | [] => PopEnd
-      | arg :: rest =>
-          match arg with
-          | 64 :: name =>
+(* ExpandIncludeFile::next; the stack is kept top-first, [left] = expansions_left.  An `@name` that cannot be read,
+   whose content holds a quote, or that comes after the expansion limit is returned literally. *)
+Fixpoint pop (left : nat) (fs : fsys) (stack : list bytes) {struct left} : popres :=
+  match stack with
+  | [] => PopEnd
+  | arg :: rest =>
+      match arg with
+      | 64 :: name =>
+          match left with
+          | O => PopArg arg rest O
+          | S l =>
               match assoc name fs with
-              | None => PopArg arg rest
+              | None => PopArg arg rest l
               | Some content =>
-                  if has_quote content then PopArg arg rest
-                  else pop f fs (split_ws content ++ rest)
+                  if has_quote content then PopArg arg rest l
+                  else pop l fs (split_ws content ++ rest)
               end
-          | _ => PopArg arg rest
           end
+      | _ => PopArg arg rest left
       end
   end.
 
@@ -248,41 +248,541 @@ Definition dashdash : bytes := [45; 45].
 (* dd = seen_double_dashes: None for gcc, Some false/true for clang.
    Returns the parsed arguments up to the end / the first error. *)
 Fixpoint tokenize (fuel : nat) (T : tables) (sel : tblsel) (dd : option bool) (fs : fsys)
-         (stack : list bytes) : list argument * tok_end :=
+         (left : nat) (stack : list bytes) : list argument * tok_end :=
   match fuel with
   | O => ([], TFuel)
   | S f =>
-      match pop fuel fs stack with
+      match pop left fs stack with
       | PopEnd => ([], TEnd)
-      | PopFuel => ([], TFuel)
-      | PopArg arg rest =>
+      | PopArg arg rest left1 =>
           let dd' := match dd with
                      | Some false => if bytes_eqb arg dashdash then Some true else dd
                      | _ => dd
                      end in
           match dd' with
           | Some true =>
-              let '(l, e) := tokenize f T sel dd' fs rest in (ARaw arg :: l, e)
+              let '(l, e) := tokenize f T sel dd' fs left1 rest in (ARaw arg :: l, e)
           | _ =>
               match search T sel arg with
               | None =>
                   let a := if starts_with [45] arg then AUnknown arg else ARaw arg in
-                  let '(l, e) := tokenize f T sel dd' fs rest in (a :: l, e)
+                  let '(l, e) := tokenize f T sel dd' fs left1 rest in (a :: l, e)
               | Some i =>
-                  (* get_next_arg is only evaluated when process needs it; popping has no side effect otherwise *)
-                  let nx := pop fuel fs rest in
-                  match nx with
-                  | PopFuel => ([], TFuel)
-                  | _ =>
-                      let next := match nx with PopArg a _ => Some a | _ => None end in
-                      match process i arg next with
-                      | PEnd => ([], TErrEnd)
-                      | POk a consumed =>
-                          let rest' := if consumed then match nx with PopArg _ r => r | _ => [] end else rest in
-                          let '(l, e) := tokenize f T sel dd' fs rest' in (a :: l, e)
-                      end
+                  (* get_next_arg is only evaluated when process needs it: the look-ahead is dropped otherwise *)
+                  let nx := pop left1 fs rest in
+                  let next := match nx with PopArg a _ _ => Some a | PopEnd => None end in
+                  match process i arg next with
+                  | PEnd => ([], TErrEnd)
+                  | POk a consumed =>
+                      let '(rest', left2) :=
+                        if consumed then match nx with PopArg _ r l2 => (r, l2) | PopEnd => ([], left1) end
+                        else (rest, left1) in
+                      let '(l, e) := tokenize f T sel dd' fs left2 rest' in (a :: l, e)
                   end
               end
           end
       end
   end.
+
+(* enough fuel: every step consumes a word; there are at most the given words plus what [limit] expansions add *)
+Fixpoint max_file_tokens (fs : fsys) : nat :=
+  match fs with [] => O | (_, c) :: r => Nat.max (length (split_ws c)) (max_file_tokens r) end.
+
+Definition tok_fuel (limit : nat) (fs : fsys) (stack : list bytes) : nat :=
+  S (length stack + limit * S (max_file_tokens fs)).
+
+(* ------------------------------------------------------------------ std::path (Unix) *)
+
+Definition slash : N := 47.
+Definition dot : N := 46.
+
+Fixpoint strip_trailing_slashes_rev (r : bytes) : bytes :=
+  match r with
+  | c :: r' => if N.eqb c slash then strip_trailing_slashes_rev r' else r
+  | [] => []
+  end.
+
+(* the last segment of a reversed path without trailing slash: (segment reversed, remainder reversed incl. slash) *)
+Fixpoint last_seg_rev (r : bytes) : bytes * bytes :=
+  match r with
+  | [] => ([], [])
+  | c :: r' => if N.eqb c slash then ([], r) else let '(s, rem) := last_seg_rev r' in (c :: s, rem)
+  end.
+
+(* Path::file_name as (offset of the name in the path, name); `.` components at the end are skipped, `..`, `/`,
+   `` and a lone `.` have no file name *)
+Fixpoint file_name_rev (fuel : nat) (r : bytes) : option (nat * bytes) :=
+  match fuel with
+  | O => None
+  | S f =>
+      let r1 := strip_trailing_slashes_rev r in
+      match r1 with
+      | [] => None
+      | _ =>
+          let '(segr, rem) := last_seg_rev r1 in
+          let seg := rev segr in
+          if bytes_eqb seg [dot] then file_name_rev f rem
+          else if bytes_eqb seg [dot; dot] then None
+          else Some (length rem, seg)
+      end
+  end.
+
+Definition file_name_span (p : bytes) : option (nat * bytes) := file_name_rev (S (length p)) (rev p).
+Definition file_name (p : bytes) : option bytes := option_map snd (file_name_span p).
+
+(* rsplit_file_at_dot: (before, after) *)
+Fixpoint split_last_dot_rev (r : bytes) : option (bytes * bytes) :=   (* reversed name -> (after reversed, before reversed) *)
+  match r with
+  | [] => None
+  | c :: r' =>
+      if N.eqb c dot then Some ([], r')
+      else match split_last_dot_rev r' with
+           | Some (a, b) => Some (c :: a, b)
+           | None => None
+           end
+  end.
+
+Definition rsplit_at_dot (name : bytes) : option bytes * option bytes :=
+  if bytes_eqb name [dot; dot] then (Some name, None)
+  else match split_last_dot_rev (rev name) with
+       | None => (None, Some name)                     (* no dot: before = None, after = whole *)
+       | Some (a, b) =>
+           match b with
+           | [] => (Some name, None)                   (* leading dot only *)
+           | _ => (Some (rev b), Some (rev a))
+           end
+       end.
+
+Definition extension (p : bytes) : option bytes :=
+  match file_name p with
+  | None => None
+  | Some n => match rsplit_at_dot n with (Some _, Some a) => Some a | _ => None end
+  end.
+
+Definition file_stem_of (n : bytes) : bytes :=
+  match rsplit_at_dot n with
+  | (Some b, _) => b
+  | (None, Some a) => a
+  | (None, None) => n
+  end.
+
+(* Path::with_extension for a non-empty extension *)
+Definition with_extension (p ext : bytes) : bytes :=
+  match file_name_span p with
+  | None => p
+  | Some (off, n) => firstn (off + length (file_stem_of n)) p ++ [dot] ++ ext
+  end.
+
+Definition is_absolute (p : bytes) : bool := starts_with [slash] p.
+
+Definition ends_with_slash (p : bytes) : bool :=
+  match rev p with c :: _ => N.eqb c slash | [] => false end.
+
+(* PathBuf::push / Path::join *)
+Definition path_join (base p : bytes) : bytes :=
+  if is_absolute p then p
+  else if ends_with_slash base || (match base with [] => true | _ => false end) then base ++ p
+  else base ++ [slash] ++ p.
+
+(* ------------------------------------------------------------------ gcc.rs: parse_arguments *)
+
+Inductive ckind := KGcc | KClang.
+
+Record env := {
+  e_kind : ckind;
+  e_plusplus : bool;
+  e_multiarch : bool;          (* SCCACHE_CACHE_MULTIARCH is set *)
+  e_cwd : bytes;
+  e_files : fsys;              (* readable @-files, by the name written after `@` *)
+  e_dirs : list bytes          (* names (as written on the command line) that are directories *)
+}.
+
+Record lists := {
+  l_common : list bytes;
+  l_arch : list bytes;
+  l_unhashed : list bytes;
+  l_pre : list bytes;
+  l_dep : list bytes
+}.
+
+Definition push (d : dest) (ws : list bytes) (l : lists) : lists :=
+  match d with
+  | DCommon => {| l_common := l_common l ++ ws; l_arch := l_arch l; l_unhashed := l_unhashed l; l_pre := l_pre l; l_dep := l_dep l |}
+  | DArch => {| l_common := l_common l; l_arch := l_arch l ++ ws; l_unhashed := l_unhashed l; l_pre := l_pre l; l_dep := l_dep l |}
+  | DUnhashed => {| l_common := l_common l; l_arch := l_arch l; l_unhashed := l_unhashed l ++ ws; l_pre := l_pre l; l_dep := l_dep l |}
+  | DPre => {| l_common := l_common l; l_arch := l_arch l; l_unhashed := l_unhashed l; l_pre := l_pre l ++ ws; l_dep := l_dep l |}
+  | DDep => {| l_common := l_common l; l_arch := l_arch l; l_unhashed := l_unhashed l; l_pre := l_pre l; l_dep := l_dep l ++ ws |}
+  | DSkip | DUnreachable => l
+  end.
+
+Definition get_list (d : dest) (l : lists) : list bytes :=
+  match d with
+  | DCommon => l_common l | DArch => l_arch l | DUnhashed => l_unhashed l | DPre => l_pre l | DDep => l_dep l
+  | _ => []
+  end.
+
+Definition empty_lists : lists := {| l_common := []; l_arch := []; l_unhashed := []; l_pre := []; l_dep := [] |}.
+
+Inductive color := ColorOff | ColorOn | ColorAuto.
+Inductive deppath := DPNotNeeded | DPMissing | DPProvided.
+
+(* the local variables of parse_arguments other than the five lists *)
+Record vars := {
+  v_output : option bytes;
+  v_input : option bytes;
+  v_dd_input : bool;
+  v_dep_targets : list (bytes * bytes);
+  v_extra_hash : list bytes;
+  v_compilation : bool;
+  v_multiple_input : bool;
+  v_pedantic : bool;
+  v_lang_ext : bool;
+  v_split_dwarf : bool;
+  v_need_dep_target : bool;
+  v_dep_path : deppath;
+  v_language : option lang;
+  v_cflag : bytes;
+  v_profile_generate : bool;
+  v_outputs_gcno : bool;
+  v_xclangs : list bytes;
+  v_color : color;
+  v_seen_arch : option bytes;
+  v_dia : option bytes;
+  v_too_hard_pp : option bytes
+}.
+
+Definition init_vars : vars := {|
+  v_output := None; v_input := None; v_dd_input := false; v_dep_targets := []; v_extra_hash := [];
+  v_compilation := false; v_multiple_input := false; v_pedantic := false; v_lang_ext := true;
+  v_split_dwarf := false; v_need_dep_target := false; v_dep_path := DPNotNeeded; v_language := None;
+  v_cflag := []; v_profile_generate := false; v_outputs_gcno := false; v_xclangs := []; v_color := ColorAuto;
+  v_seen_arch := None; v_dia := None; v_too_hard_pp := None |}.
+
+(* field updates *)
+Definition set_output x v := {| v_output := x; v_input := v_input v; v_dd_input := v_dd_input v; v_dep_targets := v_dep_targets v; v_extra_hash := v_extra_hash v; v_compilation := v_compilation v; v_multiple_input := v_multiple_input v; v_pedantic := v_pedantic v; v_lang_ext := v_lang_ext v; v_split_dwarf := v_split_dwarf v; v_need_dep_target := v_need_dep_target v; v_dep_path := v_dep_path v; v_language := v_language v; v_cflag := v_cflag v; v_profile_generate := v_profile_generate v; v_outputs_gcno := v_outputs_gcno v; v_xclangs := v_xclangs v; v_color := v_color v; v_seen_arch := v_seen_arch v; v_dia := v_dia v; v_too_hard_pp := v_too_hard_pp v |}.
+Definition set_input x m v := {| v_output := v_output v; v_input := x; v_dd_input := v_dd_input v; v_dep_targets := v_dep_targets v; v_extra_hash := v_extra_hash v; v_compilation := v_compilation v; v_multiple_input := m; v_pedantic := v_pedantic v; v_lang_ext := v_lang_ext v; v_split_dwarf := v_split_dwarf v; v_need_dep_target := v_need_dep_target v; v_dep_path := v_dep_path v; v_language := v_language v; v_cflag := v_cflag v; v_profile_generate := v_profile_generate v; v_outputs_gcno := v_outputs_gcno v; v_xclangs := v_xclangs v; v_color := v_color v; v_seen_arch := v_seen_arch v; v_dia := v_dia v; v_too_hard_pp := v_too_hard_pp v |}.
+Definition set_dd_input x v := {| v_output := v_output v; v_input := v_input v; v_dd_input := x; v_dep_targets := v_dep_targets v; v_extra_hash := v_extra_hash v; v_compilation := v_compilation v; v_multiple_input := v_multiple_input v; v_pedantic := v_pedantic v; v_lang_ext := v_lang_ext v; v_split_dwarf := v_split_dwarf v; v_need_dep_target := v_need_dep_target v; v_dep_path := v_dep_path v; v_language := v_language v; v_cflag := v_cflag v; v_profile_generate := v_profile_generate v; v_outputs_gcno := v_outputs_gcno v; v_xclangs := v_xclangs v; v_color := v_color v; v_seen_arch := v_seen_arch v; v_dia := v_dia v; v_too_hard_pp := v_too_hard_pp v |}.
+Definition set_dep_targets x v := {| v_output := v_output v; v_input := v_input v; v_dd_input := v_dd_input v; v_dep_targets := x; v_extra_hash := v_extra_hash v; v_compilation := v_compilation v; v_multiple_input := v_multiple_input v; v_pedantic := v_pedantic v; v_lang_ext := v_lang_ext v; v_split_dwarf := v_split_dwarf v; v_need_dep_target := v_need_dep_target v; v_dep_path := v_dep_path v; v_language := v_language v; v_cflag := v_cflag v; v_profile_generate := v_profile_generate v; v_outputs_gcno := v_outputs_gcno v; v_xclangs := v_xclangs v; v_color := v_color v; v_seen_arch := v_seen_arch v; v_dia := v_dia v; v_too_hard_pp := v_too_hard_pp v |}.
+Definition set_extra_hash x v := {| v_output := v_output v; v_input := v_input v; v_dd_input := v_dd_input v; v_dep_targets := v_dep_targets v; v_extra_hash := x; v_compilation := v_compilation v; v_multiple_input := v_multiple_input v; v_pedantic := v_pedantic v; v_lang_ext := v_lang_ext v; v_split_dwarf := v_split_dwarf v; v_need_dep_target := v_need_dep_target v; v_dep_path := v_dep_path v; v_language := v_language v; v_cflag := v_cflag v; v_profile_generate := v_profile_generate v; v_outputs_gcno := v_outputs_gcno v; v_xclangs := v_xclangs v; v_color := v_color v; v_seen_arch := v_seen_arch v; v_dia := v_dia v; v_too_hard_pp := v_too_hard_pp v |}.
+Definition set_compilation f v := {| v_output := v_output v; v_input := v_input v; v_dd_input := v_dd_input v; v_dep_targets := v_dep_targets v; v_extra_hash := v_extra_hash v; v_compilation := true; v_multiple_input := v_multiple_input v; v_pedantic := v_pedantic v; v_lang_ext := v_lang_ext v; v_split_dwarf := v_split_dwarf v; v_need_dep_target := v_need_dep_target v; v_dep_path := v_dep_path v; v_language := v_language v; v_cflag := f; v_profile_generate := v_profile_generate v; v_outputs_gcno := v_outputs_gcno v; v_xclangs := v_xclangs v; v_color := v_color v; v_seen_arch := v_seen_arch v; v_dia := v_dia v; v_too_hard_pp := v_too_hard_pp v |}.
+Definition set_pedantic v := {| v_output := v_output v; v_input := v_input v; v_dd_input := v_dd_input v; v_dep_targets := v_dep_targets v; v_extra_hash := v_extra_hash v; v_compilation := v_compilation v; v_multiple_input := v_multiple_input v; v_pedantic := true; v_lang_ext := v_lang_ext v; v_split_dwarf := v_split_dwarf v; v_need_dep_target := v_need_dep_target v; v_dep_path := v_dep_path v; v_language := v_language v; v_cflag := v_cflag v; v_profile_generate := v_profile_generate v; v_outputs_gcno := v_outputs_gcno v; v_xclangs := v_xclangs v; v_color := v_color v; v_seen_arch := v_seen_arch v; v_dia := v_dia v; v_too_hard_pp := v_too_hard_pp v |}.
+Definition set_lang_ext x v := {| v_output := v_output v; v_input := v_input v; v_dd_input := v_dd_input v; v_dep_targets := v_dep_targets v; v_extra_hash := v_extra_hash v; v_compilation := v_compilation v; v_multiple_input := v_multiple_input v; v_pedantic := v_pedantic v; v_lang_ext := x; v_split_dwarf := v_split_dwarf v; v_need_dep_target := v_need_dep_target v; v_dep_path := v_dep_path v; v_language := v_language v; v_cflag := v_cflag v; v_profile_generate := v_profile_generate v; v_outputs_gcno := v_outputs_gcno v; v_xclangs := v_xclangs v; v_color := v_color v; v_seen_arch := v_seen_arch v; v_dia := v_dia v; v_too_hard_pp := v_too_hard_pp v |}.
+Definition set_split_dwarf v := {| v_output := v_output v; v_input := v_input v; v_dd_input := v_dd_input v; v_dep_targets := v_dep_targets v; v_extra_hash := v_extra_hash v; v_compilation := v_compilation v; v_multiple_input := v_multiple_input v; v_pedantic := v_pedantic v; v_lang_ext := v_lang_ext v; v_split_dwarf := true; v_need_dep_target := v_need_dep_target v; v_dep_path := v_dep_path v; v_language := v_language v; v_cflag := v_cflag v; v_profile_generate := v_profile_generate v; v_outputs_gcno := v_outputs_gcno v; v_xclangs := v_xclangs v; v_color := v_color v; v_seen_arch := v_seen_arch v; v_dia := v_dia v; v_too_hard_pp := v_too_hard_pp v |}.
+Definition set_need_dep (th : option bytes) v := {| v_output := v_output v; v_input := v_input v; v_dd_input := v_dd_input v; v_dep_targets := v_dep_targets v; v_extra_hash := v_extra_hash v; v_compilation := v_compilation v; v_multiple_input := v_multiple_input v; v_pedantic := v_pedantic v; v_lang_ext := v_lang_ext v; v_split_dwarf := v_split_dwarf v; v_need_dep_target := true; v_dep_path := (match v_dep_path v with DPNotNeeded => DPMissing | x => x end); v_language := v_language v; v_cflag := v_cflag v; v_profile_generate := v_profile_generate v; v_outputs_gcno := v_outputs_gcno v; v_xclangs := v_xclangs v; v_color := v_color v; v_seen_arch := v_seen_arch v; v_dia := v_dia v; v_too_hard_pp := th |}.
+Definition set_dep_provided v := {| v_output := v_output v; v_input := v_input v; v_dd_input := v_dd_input v; v_dep_targets := v_dep_targets v; v_extra_hash := v_extra_hash v; v_compilation := v_compilation v; v_multiple_input := v_multiple_input v; v_pedantic := v_pedantic v; v_lang_ext := v_lang_ext v; v_split_dwarf := v_split_dwarf v; v_need_dep_target := v_need_dep_target v; v_dep_path := DPProvided; v_language := v_language v; v_cflag := v_cflag v; v_profile_generate := v_profile_generate v; v_outputs_gcno := v_outputs_gcno v; v_xclangs := v_xclangs v; v_color := v_color v; v_seen_arch := v_seen_arch v; v_dia := v_dia v; v_too_hard_pp := v_too_hard_pp v |}.
+Definition set_language x v := {| v_output := v_output v; v_input := v_input v; v_dd_input := v_dd_input v; v_dep_targets := v_dep_targets v; v_extra_hash := v_extra_hash v; v_compilation := v_compilation v; v_multiple_input := v_multiple_input v; v_pedantic := v_pedantic v; v_lang_ext := v_lang_ext v; v_split_dwarf := v_split_dwarf v; v_need_dep_target := v_need_dep_target v; v_dep_path := v_dep_path v; v_language := x; v_cflag := v_cflag v; v_profile_generate := v_profile_generate v; v_outputs_gcno := v_outputs_gcno v; v_xclangs := v_xclangs v; v_color := v_color v; v_seen_arch := v_seen_arch v; v_dia := v_dia v; v_too_hard_pp := v_too_hard_pp v |}.
+Definition set_profile (pg gcno : bool) v := {| v_output := v_output v; v_input := v_input v; v_dd_input := v_dd_input v; v_dep_targets := v_dep_targets v; v_extra_hash := v_extra_hash v; v_compilation := v_compilation v; v_multiple_input := v_multiple_input v; v_pedantic := v_pedantic v; v_lang_ext := v_lang_ext v; v_split_dwarf := v_split_dwarf v; v_need_dep_target := v_need_dep_target v; v_dep_path := v_dep_path v; v_language := v_language v; v_cflag := v_cflag v; v_profile_generate := v_profile_generate v || pg; v_outputs_gcno := v_outputs_gcno v || gcno; v_xclangs := v_xclangs v; v_color := v_color v; v_seen_arch := v_seen_arch v; v_dia := v_dia v; v_too_hard_pp := v_too_hard_pp v |}.
+Definition set_xclangs x v := {| v_output := v_output v; v_input := v_input v; v_dd_input := v_dd_input v; v_dep_targets := v_dep_targets v; v_extra_hash := v_extra_hash v; v_compilation := v_compilation v; v_multiple_input := v_multiple_input v; v_pedantic := v_pedantic v; v_lang_ext := v_lang_ext v; v_split_dwarf := v_split_dwarf v; v_need_dep_target := v_need_dep_target v; v_dep_path := v_dep_path v; v_language := v_language v; v_cflag := v_cflag v; v_profile_generate := v_profile_generate v; v_outputs_gcno := v_outputs_gcno v; v_xclangs := x; v_color := v_color v; v_seen_arch := v_seen_arch v; v_dia := v_dia v; v_too_hard_pp := v_too_hard_pp v |}.
+Definition set_color x v := {| v_output := v_output v; v_input := v_input v; v_dd_input := v_dd_input v; v_dep_targets := v_dep_targets v; v_extra_hash := v_extra_hash v; v_compilation := v_compilation v; v_multiple_input := v_multiple_input v; v_pedantic := v_pedantic v; v_lang_ext := v_lang_ext v; v_split_dwarf := v_split_dwarf v; v_need_dep_target := v_need_dep_target v; v_dep_path := v_dep_path v; v_language := v_language v; v_cflag := v_cflag v; v_profile_generate := v_profile_generate v; v_outputs_gcno := v_outputs_gcno v; v_xclangs := v_xclangs v; v_color := x; v_seen_arch := v_seen_arch v; v_dia := v_dia v; v_too_hard_pp := v_too_hard_pp v |}.
+Definition set_seen_arch x v := {| v_output := v_output v; v_input := v_input v; v_dd_input := v_dd_input v; v_dep_targets := v_dep_targets v; v_extra_hash := v_extra_hash v; v_compilation := v_compilation v; v_multiple_input := v_multiple_input v; v_pedantic := v_pedantic v; v_lang_ext := v_lang_ext v; v_split_dwarf := v_split_dwarf v; v_need_dep_target := v_need_dep_target v; v_dep_path := v_dep_path v; v_language := v_language v; v_cflag := v_cflag v; v_profile_generate := v_profile_generate v; v_outputs_gcno := v_outputs_gcno v; v_xclangs := v_xclangs v; v_color := v_color v; v_seen_arch := x; v_dia := v_dia v; v_too_hard_pp := v_too_hard_pp v |}.
+Definition set_dia x v := {| v_output := v_output v; v_input := v_input v; v_dd_input := v_dd_input v; v_dep_targets := v_dep_targets v; v_extra_hash := v_extra_hash v; v_compilation := v_compilation v; v_multiple_input := v_multiple_input v; v_pedantic := v_pedantic v; v_lang_ext := v_lang_ext v; v_split_dwarf := v_split_dwarf v; v_need_dep_target := v_need_dep_target v; v_dep_path := v_dep_path v; v_language := v_language v; v_cflag := v_cflag v; v_profile_generate := v_profile_generate v; v_outputs_gcno := v_outputs_gcno v; v_xclangs := v_xclangs v; v_color := v_color v; v_seen_arch := v_seen_arch v; v_dia := x; v_too_hard_pp := v_too_hard_pp v |}.
+Definition set_too_hard_pp x v := {| v_output := v_output v; v_input := v_input v; v_dd_input := v_dd_input v; v_dep_targets := v_dep_targets v; v_extra_hash := v_extra_hash v; v_compilation := v_compilation v; v_multiple_input := v_multiple_input v; v_pedantic := v_pedantic v; v_lang_ext := v_lang_ext v; v_split_dwarf := v_split_dwarf v; v_need_dep_target := v_need_dep_target v; v_dep_path := v_dep_path v; v_language := v_language v; v_cflag := v_cflag v; v_profile_generate := v_profile_generate v; v_outputs_gcno := v_outputs_gcno v; v_xclangs := v_xclangs v; v_color := v_color v; v_seen_arch := v_seen_arch v; v_dia := v_dia v; v_too_hard_pp := x |}.
+
+(* ------------------------------------------------------------------ the main loop *)
+
+Definition why := bytes.            (* the &'static str of CompilerArguments::CannotCache *)
+
+Definition at_sign : N := 64.
+
+(* `v.starts_with("@")` for separated / can-be-* values *)
+Definition at_value (a : argument) : bool :=
+  match a with
+  | AWith _ _ v Separated | AWith _ _ v (CanBeConcatenated _) | AWith _ _ v (CanBeSeparated _) => starts_with [at_sign] v
+  | _ => false
+  end.
+
+Definition is_dir (E : env) (arg : bytes) : bool :=
+  match arg with [] => true | _ => mem_bytes arg (e_dirs E) end.
+
+(* clang::resolve_profile_use_path *)
+Definition resolve_profile_use_path (E : env) (arg : bytes) : bytes :=
+  let path := path_join (e_cwd E) arg in
+  if is_dir E arg then path_join path (bs "default.profdata") else path.
+
+Definition color_of_value (v : bytes) : color :=
+  if bytes_eqb v [] || bytes_eqb v (bs "always") then ColorOn
+  else if bytes_eqb v (bs "never") then ColorOff
+  else ColorAuto.
+
+(* first `match arg.get_data()` of the loop (and the `@` check in front of it): everything except the lists *)
+Definition effect_step (T : tables) (E : env) (v : vars) (a : argument) : vars + why :=
+  if at_value a then inr [at_sign] else
+  match a with
+  | ARaw s =>
+      if bytes_eqb s dashdash then
+        inl (match v_input v with None => set_dd_input true v | Some _ => v end)
+      else
+        inl (set_input (Some s) (match v_input v with Some _ => true | None => v_multiple_input v end) v)
+  | AUnknown _ => inl v
+  | AFlag s c | AWith s c _ _ =>
+      let val := match a with AWith _ _ x _ => x | _ => [] end in
+      match c with
+      | TooHardFlag | TooHard => inr s
+      | PedanticFlag => inl (set_pedantic v)
+      | Standard => inl (set_lang_ext (starts_with (bs "gnu") val) v)
+      | SplitDwarf => inl (set_split_dwarf v)
+      | DoCompilation => inl (set_compilation s v)
+      | ProfileGenerate => inl (set_profile true false v)
+      | ClangProfileUse => inl (set_extra_hash (v_extra_hash v ++ [resolve_profile_use_path E val]) v)
+      | TestCoverage => inl (set_profile false true v)
+      | Coverage => inl (set_profile true true v)
+      | DiagnosticsColorFlag => inl (set_color ColorOn v)
+      | NoDiagnosticsColorFlag => inl (set_color ColorOff v)
+      | DiagnosticsColor => inl (set_color (color_of_value val) v)
+      | Output => inl (set_output (Some val) v)
+      | NeedDepTarget => inl (set_need_dep (Some s) v)
+      | DepTarget => inl (set_dep_targets (v_dep_targets v ++ [(s, val)]) v)
+      | DepArgumentPath => inl (set_dep_provided v)
+      | SerializeDiagnostics => inl (set_dia (Some val) v)
+      | Language =>
+          match assoc val (t_xlang T) with
+          | Some l => inl (set_language (Some l) v)
+          | None => inr (bs "-x")
+          end
+      | Arch =>
+          match v_seen_arch v with
+          | Some s0 =>
+              if negb (bytes_eqb s0 val) && negb (e_multiarch E)
+              then inr (bs "multiple different -arch, and SCCACHE_CACHE_MULTIARCH not set")
+              else inl (set_seen_arch (Some val) v)
+          | None => inl (set_seen_arch (Some val) v)
+          end
+      | XClang => inl (set_xclangs (v_xclangs v ++ [val]) v)
+      | ExtraHashFile | PassThroughFlag | PreprocessorArgumentFlag | PreprocessorArgument
+      | PreprocessorArgumentPath | PassThrough | PassThroughPath | UnhashedFlag | Unhashed => inl v
+      end
+  end.
+
+Definition arg_dest (T : tables) (a : argument) : dest * arm_effect :=
+  match a with
+  | ARaw _ => (DSkip, ENone)
+  | AUnknown _ => (DCommon, ENone)
+  | AFlag _ c | AWith _ c _ _ => t_main_dest T c
+  end.
+
+Definition a_value (a : argument) : bytes := match a with AWith _ _ x _ => x | _ => [] end.
+
+Definition arm_effect_step (E : env) (eff : arm_effect) (a : argument) (v : vars) : vars :=
+  match eff with
+  | ENone => v
+  | EExtraHash => set_extra_hash (v_extra_hash v ++ [path_join (e_cwd E) (a_value a)]) v
+  | ETooHardPP =>
+      set_too_hard_pp (match a_flag_str a with
+                       | Some s => if bytes_eqb s (bs "-Xpreprocessor") || bytes_eqb s (bs "-Wp") then Some s
+                                   else v_too_hard_pp v
+                       | None => v_too_hard_pp v
+                       end) v
+  end.
+
+Definition pst := (vars * lists)%type.
+
+Definition main_step (T : tables) (E : env) (st : pst) (a : argument) : pst + why :=
+  let '(v, l) := st in
+  match effect_step T E v a with
+  | inr w => inr w
+  | inl v1 =>
+      let '(d, eff) := arg_dest T a in
+      match d with
+      | DSkip => inl (v1, l)
+      | DUnreachable => inl (v1, l)      (* never reached: effect_step returned for these constructors *)
+      | _ => inl (arm_effect_step E eff a v1, push d (render_norm a) l)
+      end
+  end.
+
+Fixpoint run_loop {S A} (step : S -> A -> S + why) (st : S) (al : list A) : S + why :=
+  match al with
+  | [] => inl st
+  | a :: r => match step st a with inl st' => run_loop step st' r | inr w => inr w end
+  end.
+
+(* ------------------------------------------------------------------ the -Xclang loop *)
+
+Definition xclang_word : bytes := bs "-Xclang".
+
+Fixpoint interleave_xclang (ws : list bytes) : list bytes :=
+  match ws with [] => [] | w :: r => xclang_word :: w :: interleave_xclang r end.
+
+(* state: vars, lists, follows_plugin_arg *)
+Definition xst := (vars * lists * bool)%type.
+
+Definition x_step (T : tables) (E : env) (st : xst) (a : argument) : xst + why :=
+  let '(v, l, fpa) := st in
+  let fpa' := match a_flag_str a with Some s => bytes_eqb s (bs "-plugin-arg") | None => false end in
+  let ws := interleave_xclang (render_norm a) in
+  match a with
+  | ARaw _ =>
+      if fpa then inl (v, push DCommon ws l, fpa')
+      else inr (bs "Can't handle Raw arguments with -Xclang")
+  | AUnknown _ => inr (bs "Can't handle UnknownFlag arguments with -Xclang")
+  | AFlag s c | AWith s c _ _ =>
+      match t_x_dest T c with
+      | (XCannotCache, _) => inr s
+      | (XList d, eff) =>
+          let v' := match eff with EExtraHash => arm_effect_step E eff a v | _ => v end in
+          inl (v', push d ws l, fpa')
+      end
+  end.
+
+(* ------------------------------------------------------------------ after the loops *)
+
+Inductive artifact := Artifact (name : bytes) (path : bytes) (optional : bool).
+
+Record parsed := {
+  p_input : bytes;
+  p_dd_input : bool;
+  p_language : lang;
+  p_cflag : bytes;
+  p_outputs : list artifact;         (* sorted by name: dia, dwo, gcno, obj *)
+  p_lists : lists;
+  p_extra_hash : list bytes;
+  p_profile_generate : bool;
+  p_color : color;
+  p_suppress_rewrite : bool;
+  p_too_hard_pp : option bytes
+}.
+
+Inductive presult_args :=
+| ROk (p : parsed)
+| RCannotCache (w : why)
+| RNotCompilation
+| RPanic                 (* a panic of the real code; the model never produces it (kept for the codec) *)
+| RFuel.                 (* model fuel exhausted; never happens with [tok_fuel] (see Proofs/Args.v) *)
+
+Definition lang_of_file (T : tables) (p : bytes) : option lang :=
+  match extension p with
+  | Some e => assoc e (t_ext T)
+  | None => None
+  end.
+
+Fixpoint dep_target_words (l : list (bytes * bytes)) : list bytes :=
+  match l with [] => [] | (f, t) :: r => f :: t :: dep_target_words r end.
+
+Definition finish (T : tables) (E : env) (v : vars) (l : lists) : presult_args :=
+  if negb (v_compilation v) then RNotCompilation else
+  if v_multiple_input v then RCannotCache (bs "multiple input files") else
+  match v_input v with
+  | None => RCannotCache (bs "no input file")
+  | Some input =>
+      let language :=
+        match v_language v with
+        | Some l => Some l
+        | None =>
+            match lang_of_file T input with
+            | Some LC => if e_plusplus E then Some LCxx else Some LC
+            | o => o
+            end
+        end in
+      match language with
+      | None => RCannotCache (bs "unknown source language")
+      | Some lng =>
+          let output_o :=
+            match v_output v with
+            | Some o => Some o
+            | None => file_name (with_extension input (bs "o"))
+            end in
+          match output_o with
+          | None => RCannotCache (bs "no output file name")
+          | Some output =>
+              let dwo := with_extension output (bs "dwo") in
+              let l1 := if v_split_dwarf v then push DCommon [bs "-D_gsplit_dwarf_path=" ++ dwo] l else l in
+              let o_dwo := if v_split_dwarf v then [Artifact (bs "dwo") dwo true] else [] in
+              let suppress := match e_kind E with KGcc => v_lang_ext v && v_pedantic v | KClang => false end in
+              let o_gcno := if v_outputs_gcno v then [Artifact (bs "gcno") (with_extension output (bs "gcno")) false] else [] in
+              let pg := v_profile_generate v || v_outputs_gcno v in
+              let l2 := if v_need_dep_target v
+                        then push DDep (match v_dep_targets v with
+                                        | [] => [bs "-MT"; output]
+                                        | ts => dep_target_words ts
+                                        end) l1
+                        else l1 in
+              let l3 := match v_dep_path v with
+                        | DPMissing => push DDep [bs "-MF"; with_extension output (bs "d")] l2
+                        | _ => l2
+                        end in
+              let o_dia := match v_dia v with Some p => [Artifact (bs "dia") p false] | None => [] end in
+              ROk {| p_input := input; p_dd_input := v_dd_input v; p_language := lng; p_cflag := v_cflag v;
+                     p_outputs := o_dia ++ o_dwo ++ o_gcno ++ [Artifact (bs "obj") output false];
+                     p_lists := l3; p_extra_hash := v_extra_hash v; p_profile_generate := pg;
+                     p_color := v_color v; p_suppress_rewrite := suppress; p_too_hard_pp := v_too_hard_pp v |}
+          end
+      end
+  end.
+
+Definition tokens_of (T : tables) (sel : tblsel) (dd : option bool) (fs : fsys) (ws : list bytes)
+  : list argument * tok_end :=
+  let lim := N.to_nat (t_expand_limit T) in
+  tokenize (tok_fuel lim fs ws) T sel dd fs lim ws.
+
+Definition parse_arguments (T : tables) (E : env) (argv : list bytes) : presult_args :=
+  let sel := match e_kind E with KGcc => SelGcc | KClang => SelMerged end in
+  let dd := match e_kind E with KGcc => None | KClang => Some false end in
+  let '(al, te) := tokens_of T sel dd (e_files E) argv in
+  match run_loop (main_step T E) (init_vars, empty_lists) al with
+  | inr w => RCannotCache w
+  | inl (v, l) =>
+      match te with
+      | TFuel => RFuel
+      | TErrEnd => RCannotCache (bs "argument parse")
+      | TEnd =>
+          let '(xl, xe) := tokens_of T SelMerged None (e_files E) (v_xclangs v) in
+          match run_loop (x_step T E) (v, l, false) xl with
+          | inr w => RCannotCache w
+          | inl (v2, l2, _) =>
+              match xe with
+              | TFuel => RFuel
+              | TErrEnd => RCannotCache (bs "argument parse")
+              | TEnd => finish T E v2 l2
+              end
+          end
+      end
+  end.
+
+(* ------------------------------------------------------------------ the commands *)
+
+Definition lang_arg (T : tables) (E : env) (l : lang) : option bytes :=
+  match e_kind E with KGcc => t_lang_gcc T l | KClang => t_lang_clang T l end.
+
+Definition obj_path (p : parsed) : option bytes :=
+  let fix go (l : list artifact) :=
+    match l with
+    | [] => None
+    | Artifact n path _ :: r => if bytes_eqb n (bs "obj") then Some path else go r
+    end in
+  go (p_outputs p).
+
+(* generate_compile_commands, local SingleCompileCommand.arguments *)
+Definition compile_command (T : tables) (E : env) (p : parsed) : list bytes :=
+  let l := p_lists p in
+  (match lang_arg T E (p_language p) with Some s => [bs "-x"; s] | None => [] end)
+  ++ [p_cflag p; bs "-o"; match obj_path p with Some o => o | None => [] end]
+  ++ l_pre l ++ l_dep l ++ l_unhashed l ++ l_common l ++ l_arch l
+  ++ (if p_dd_input p then [dashdash] else [])
+  ++ [p_input p].
+
+Fixpoint nodup_bytes (l : list bytes) : list bytes :=
+  match l with
+  | [] => []
+  | x :: r => if mem_bytes x r then nodup_bytes r else x :: nodup_bytes r
+  end.
+
+Record ppopts := {
+  o_may_dist : bool;
+  o_rewrite_includes_only : bool;
+  o_ws_flags : list bytes          (* ignorable_whitespace_flags *)
+}.
+
+(* preprocess_cmd: the argument vector *)
+Definition preprocess_command (T : tables) (E : env) (o : ppopts) (p : parsed) : list bytes :=
+  let l := p_lists p in
+  let rewritten := map (fun a => bs "-D__" ++ a ++ bs "__=1")
+                       (filter (fun a => negb (bytes_eqb a (t_arch_flag T))) (l_arch l)) in
+  let arch_to_use := if Nat.leb (length (nodup_bytes rewritten)) 1 then l_arch l else rewritten in
+  (match lang_arg T E (p_language p) with Some s => [bs "-x"; s] | None => [] end)
+  ++ [bs "-E"]
+  ++ (if negb (o_may_dist o) && negb (p_profile_generate p) then o_ws_flags o else [])
+  ++ (if o_rewrite_includes_only o && negb (p_suppress_rewrite p)
+      then match e_kind E with KClang => [bs "-frewrite-includes"] | KGcc => [bs "-fdirectives-only"] end
+      else [])
+  ++ l_pre l ++ l_dep l ++ l_common l ++ arch_to_use
+  ++ (if p_dd_input p then [dashdash] else [])
+  ++ [p_input p].
